@@ -339,7 +339,17 @@ def c21_request(s: SCtx, I) -> None:
     for meth, fire in (("_cleanup", "callback"), ("connectionLost", "errback")):
         f = views.get(meth) or s.need(None, meth)
         g = s.cfg(f)
-        loops = [n for n in g.ids(lambda x: x.kind == "for") if any("self.notifications" in src(v) for v in resolve_local(f, g.node(n).ast.iter))]
+        def sources(e):
+            vals = list(resolve_local(f, e))
+            if isinstance(e, ast.Name):
+                for st in ast.walk(f):       # swap idiom:  a, self.x = self.x, []
+                    if isinstance(st, ast.Assign) and len(st.targets) == 1 and isinstance(st.targets[0], ast.Tuple) and isinstance(st.value, ast.Tuple) \
+                            and len(st.targets[0].elts) == len(st.value.elts):
+                        for t, v in zip(st.targets[0].elts, st.value.elts):
+                            if isinstance(t, ast.Name) and t.id == e.id:
+                                vals.append(v)
+            return vals
+        loops = [n for n in g.ids(lambda x: x.kind == "for") if any("self.notifications" in src(v) for v in sources(g.node(n).ast.iter))]
         s.need(loops, f"loop over self.notifications in {meth}")
         resets = [n for n in g.ids(lambda x: x.kind == "stmt") if (isinstance(g.node(n).ast, (ast.Assign, ast.AnnAssign)) and any(self_attr(t, "notifications") for t in assigned_targets(g.node(n).ast)))
                   or call_in(g.node(n).ast, "self.notifications.clear")]
@@ -353,6 +363,13 @@ def c21_request(s: SCtx, I) -> None:
                 (meth == "connectionLost" and src(calls[0].args[0]) == f.args.args[1].arg))
             s.check(okf, "notify/fired-with", s.construct(QR + meth, calls[0]), f"the notifyFinish Deferreds are not fired with {'None via callback' if meth == '_cleanup' else 'the reason via errback'}")
             direct = src(fo.iter) == "self.notifications"
+            if not direct:
+                drained = any(isinstance(x, ast.While) and "self.notifications" in src(x.test) and any(y is fo for y in ast.walk(x)) for x in ast.walk(f))
+                s.check(drained, "notify/fires-registrations-made-while-firing", f"{QR}{meth} | loop over a detached copy of self.notifications",
+                        f"{meth} fires a detached copy of the list: a Deferred handed out by notifyFinish() from one of the callbacks lands in the fresh list, which nobody fires - it never fires "
+                        "(iterate self.notifications in place, or drain until it is empty)")
+            else:
+                s.ok("notify/fires-registrations-made-while-firing", f"{QR}{meth} | in-place iteration", "appends made while firing are visited by the same loop")
             w = g.must_pass([n], resets, exc=False) if direct else ordered(g, resets, [n])
             s.check(bool(resets) and w is None, "notify/list-reset", f"{QR}{meth} | reset of self.notifications",
                     f"the fired Deferreds stay in self.notifications after {meth}: a later connectionLost/_cleanup fires them a second time", witness=g.describe(w))
@@ -1237,3 +1254,92 @@ def c20_foreign_headers(s: SCtx) -> None:
             ok = ok and wit is None
         s.check(ok, "provenance/foreign-iterable-rebuilt", s.construct(q, call),
                 "header pairs given as a plain iterable reach the wire without being rebuilt through Headers.addRawHeader (no name check, no CR/LF removal)", witness=g.describe(wit))
+
+
+def c21_flow_control_siblings(s: SCtx, I) -> None:
+    """sibling agreement (finite-exhaustive over the guards' valuations): HTTPChannel.pauseProducing pauses the network producer under exactly
+    the condition under which resumeProducing resumes it, so each pause is undone by the next resume."""
+    QC = Q + "HTTPChannel."
+    fp, fr = s.func(HTTP, "HTTPChannel.pauseProducing"), s.func(HTTP, "HTTPChannel.resumeProducing")
+    gp, gr = s.cfg(fp), s.cfg(fr)
+    pp = calls_named(gp, "self._networkProducer.pauseProducing")
+    rr = calls_named(gr, "self._networkProducer.resumeProducing")
+    s.need(pp and rr, "network producer pause / resume calls in pauseProducing / resumeProducing")
+    atoms = set()
+    for g, sites in ((gp, pp), (gr, rr)):
+        for n in sites:
+            for t, lab in g.edge_guards(n):
+                for a in ast.walk(g.node(t).ast):
+                    if self_attr(a):
+                        atoms.add(dotted(a))
+    atoms -= {"self._requestProducer"}
+    s.need(atoms, "guards of the network producer calls")
+    if len(atoms) > 4:
+        raise Abstain("too many guard atoms")
+    domain = {"self._handlingRequest": (True, False), "self.requests": ([], [object()]), "self._waitingForTransport": (True, False)}
+    names = sorted(atoms)
+    for nm in names:
+        if nm not in domain:
+            domain[nm] = (True, False)
+    # requests non-empty does not imply a request is being handled (a request being parsed is queued already): all combinations are reachable
+    for vals in itertools.product(*[domain[nm] for nm in names]):
+        env = dict(zip(names, vals))
+        env.setdefault("self._requestProducer", None)
+        up, ur = [], []
+        vp = walk(gp, I, make_env(env), undecided=up)
+        vr = walk(gr, I, make_env(env), undecided=ur)
+        paused, resumed = _hit(vp, pp), _hit(vr, rr)
+        label = ", ".join(f"{k.split('.')[-1]}={'non-empty' if isinstance(v, list) and v else ('empty' if isinstance(v, list) else v)}" for k, v in env.items() if k in names)
+        s.vcheck(paused == resumed, up + ur, "valuation/pause-resume-sibling-agreement", f"{QC}pauseProducing / resumeProducing | {label}",
+                 f"with {label} pauseProducing {'pauses' if paused else 'does not pause'} the network producer but resumeProducing {'resumes' if resumed else 'does not resume'} it: "
+                 "a pause/resume cycle of the transport leaves the connection paused for good (or resumes reading behind a response in progress)")
+
+
+def c19_fold_clause(s: SCtx, I) -> None:
+    """A continuation line (leading SP / HTAB) can only extend a pending header: with nothing pending it must not turn into a header of
+    its own.  Decided by partial evaluation of the (inlined) lineReceived for the valuations of its guards on such a line: the pending
+    header text that results is empty / unchanged, or its name part is not a token (so the flush rejects it with 400).  The branch uses the
+    line only through line[0], lstrip and concatenation, so the separator it keeps does not depend on the rest of the line."""
+    from sa.source import class_assigns
+    QC = Q + "HTTPChannel."
+    cls = s.cls(HTTP, "HTTPChannel")
+    f = s.func(HTTP, "HTTPChannel.lineReceived")
+    g = s.cfg(f)
+    lp = f.args.args[1].arg
+    init = class_assigns(cls).get("__header")
+    if init is None:
+        ini = s.raw_func(HTTP, "HTTPChannel.__init__")
+        vals = [st.value for st in ast.walk(ini) if isinstance(st, (ast.Assign, ast.AnnAssign)) and any(self_attr(t, "__header") for t in assigned_targets(st)) and st.value is not None]
+        init = vals[0] if vals else None
+    s.need(init is not None, "initial value of the pending header")
+    try:
+        empty = I.ev(init, {})
+    except Exception:
+        raise Abstain("initial pending header not evaluable")
+    if empty not in (b"", [], ()):
+        raise Abstain("pending header starts non-empty")
+    exits = [g.exit]       # the environment is observed when the walk arrives at the exit node, i.e. after the last statement took effect
+    for line in (b" Content-Length: 3", b"\tTransfer-Encoding: chunked", b"  \t X-Lone: 1", b" Content-Length:3"):
+        finals = []
+
+        def on(node, e):
+            if node.id in exits:
+                finals.append(e.get("self.__header", Unknown))
+        und = []
+        pend = type(empty)(empty) if isinstance(empty, list) else empty
+        walk(g, I, make_env({lp: line, "self.__first_line": 0, "self.__header": pend, "self._receivedHeaderSize": 0, "self.totalHeadersSize": 1 << 20}), on_node=on, undecided=und)
+        if und or not finals or any(v is Unknown for v in finals):
+            raise Abstain("pending header after a lone continuation line not determined by partial evaluation")
+        for v in finals:
+            text = b" ".join(v) if isinstance(v, (list, tuple)) else v
+            if not isinstance(text, (bytes, bytearray)):
+                raise Abstain("pending header of an unrecognised type")
+            name = bytes(text).split(b":", 1)[0]
+            try:
+                tok = bool(I.run(I.funcs["_istoken"], [name])) if name else False
+            except Exception:
+                raise Abstain("_istoken not evaluable")
+            s.check(text in (b"",) or not tok, "fold/lone-continuation-cannot-become-a-header", f"{QC}lineReceived | line {line!r} with no header pending",
+                    f"with no header pending the whitespace-preceded line {line!r} leaves the pending header {bytes(text)!r}, whose name {name!r} is a valid token: it is processed as a header of "
+                    "its own (a folded Content-Length / Transfer-Encoding directly after the request line frames the request: smuggling)",
+                    detail="pending header empty / not a token name for leading SP, HTAB and mixed whitespace")
